@@ -145,6 +145,12 @@ func makeEntries(k, lg, maxDepth int, small bool) ([]*hEntry, *verifmodel.NameHa
 			// restrict buckets on every consumable level to {0,1,F-1}: min, adjacent, max
 			for d := 0; d < maxDepth; d++ {
 				c := chunkOf(e.hash, d, lg)
+				if d < verifrt.Param("shareprefix", 0) {
+					// all entries share their first `shareprefix` buckets: one insertion
+					// creates a chain of that many new shards, later entries run down it
+					verifrt.Assume(c == 1)
+					continue
+				}
 				if verifrt.Param("fixedbuckets", 0) == 1 {
 					// one collision pattern only (entries share level 0, split at level 1):
 					// used when the sizes, not the buckets, are the symbolic dimension
@@ -204,7 +210,14 @@ func VerifShardedDir() {
 	probe := &hEntry{hash: verifrt.Bytes(8)}
 	// unrelated, or related to an entry's name as proper suffix / proper prefix /
 	// extension (its hash is arbitrary, so it may be routed to that entry's bucket)
-	variant := verifrt.Choose(5)
+	variant := 0
+	if k == 0 {
+		// the empty directory: only probes that do not refer to an entry
+		variant = []int{0, 4}[verifrt.Choose(2)]
+		verifrt.Reach("empty-directory")
+	} else {
+		variant = verifrt.Choose(5)
+	}
 	if variant == 4 {
 		// the empty key: never a member; its real murmur3 hash is 0 (bucket 0 at every level)
 		probe.name = ""
